@@ -1,4 +1,7 @@
-\* exhaustive, shape TRUE (all clauses): 2 script contexts, 3 frames, 1 array x 1 element, 2 stack cells, 1 static cell
+\* exhaustive (quick): 2 script contexts, 3 frames, 1 array x 1 element, 2 stack cells, kind rv1 (dyn, cc0: MC_C1, MC_C2)
+\* (the shape of the code under verification: UnwindReleasesStack = FALSE, everything but exactness is checked;
+\*  tools/checks/c12_xscript.py derives the variant with the stack of an unwound script context released, on which
+\*  ALL clauses - ExactAcyclic, RcExact, AbsStep - are checked, and the variants with one named deviation each)
 SPECIFICATION Spec
 CONSTANTS
   N = 1
@@ -8,18 +11,18 @@ CONSTANTS
   MaxFrames = 3
   MaxSC = 2
   MaxArgs = 1
-  Ops <- AllOps
-  LoadKinds = {"rv1", "cc0"}
+  Ops = {"prim","new","drop","static","call","load","ret","try"}
+  LoadKinds = {"rv1"}
   Limit = 99
   MaxLeak = 1
-  UnwindReleasesStack = TRUE
+  UnwindReleasesStack = FALSE
   BugTruncFirst = FALSE
   BugNoStaticOnUnwind = FALSE
   BugRetDoubleCount = FALSE
   BugArgsDoubleRelease = FALSE
   BugExcNotCounted = FALSE
-INVARIANTS TypeOK WalkedOK NoUnderCount ExactAcyclic Bounded RcExact RcSane
-PROPERTIES AbsStep UnloadRule
+INVARIANTS TypeOK WalkedOK NoUnderCount Bounded RcSane
+PROPERTIES UnloadRule
 VIEW View
 CONSTRAINT LeakBound
 CHECK_DEADLOCK FALSE
